@@ -35,10 +35,17 @@
         written handle alone) and xml_handles_refine_values (the heap model with copy-on-write
         refines the value store of the spec)
 
+   One Parser object for several texts, a target Element that already holds something, the static
+   wrappers (the property speaks of Xml::parse as a function of the text)
+                                                            -> xml_parser_reuse_is_fresh_parse,
+        xml_parser_history_is_fresh_parses, xml_second_parse_error_inside_second_text,
+        xml_parser_error_fields, xml_static_parse_is_parse; xml_parse_without_clear_keeps_target_content
+        records what the code did before repair 07 (`element.clear()`)
+
    Only statements closed by `exact`, each followed by Print Assumptions, plus non-vacuity
    Examples. *)
 From Coq Require Import ZArith List Bool.
-From Xml Require Import Gen_Xml XmlSpec XmlModel XmlProofsCodec XmlProofsScan XmlProofsTotal XmlProofsRound XmlProofsComment XmlProofsHandles.
+From Xml Require Import Gen_Xml XmlSpec XmlModel XmlProofsCodec XmlProofsScan XmlProofsTotal XmlProofsRound XmlProofsComment XmlProofsHandles XmlProofsReuse.
 Import ListNotations.
 Local Open Scope Z_scope.
 
@@ -76,6 +83,47 @@ Example ex_error_position : parse [60;97;62;10;60;98] = Syn 2 3 EEof /\ inside_t
 Proof. split; [vm_compute; reflexivity|]. exists 6%nat. split; [apply le_n|vm_compute; reflexivity]. Qed.
 
 Example ex_error_newline_in_string : parse [60;97;32;107;61;34;118;62;10] = Syn 1 6 ENewline.
+Proof. vm_compute. reflexivity. Qed.
+
+(* ---- one Parser object, several texts; a target that holds something; the static wrappers --- *)
+
+Theorem xml_parser_reuse_is_fresh_parse : forall (o : parser) (target : node) (s : list Z), snd (parse_with o target s) = parse s.
+Proof. exact parse_with_result. Qed.
+Print Assumptions xml_parser_reuse_is_fresh_parse.
+
+Theorem xml_parser_history_is_fresh_parses :
+  forall (calls : list (node * list Z)) (o : parser), run_parses o calls = map (fun c => parse (snd c)) calls.
+Proof. exact run_parses_fresh. Qed.
+Print Assumptions xml_parser_history_is_fresh_parses.
+
+Theorem xml_second_parse_error_inside_second_text : forall o tgt1 s1 tgt2 s2 l c m,
+  snd (parse_with (fst (parse_with o tgt1 s1)) tgt2 s2) = Syn l c m -> inside_text s2 l c.
+Proof. exact second_parse_error_inside_second_text. Qed.
+Print Assumptions xml_second_parse_error_inside_second_text.
+
+Theorem xml_parser_error_fields : forall o tgt s,
+  match parse s with
+  | Syn l c m => o_err (fst (parse_with o tgt s)) = (l, c, Some m)
+  | _ => o_err (fst (parse_with o tgt s)) = o_err o
+  end.
+Proof. exact parse_with_error_fields. Qed.
+Print Assumptions xml_parser_error_fields.
+
+Theorem xml_static_parse_is_parse : forall garbage target s, static_parse garbage target s = parse s.
+Proof. exact static_parse_result. Qed.
+Print Assumptions xml_static_parse_is_parse.
+
+Theorem xml_parse_without_clear_keeps_target_content :
+  snd (parse_obj false (new_parser 0) (N 0 0 [122] [([107], [118])] [T [116]]) [60;97;32;108;61;34;119;34;62;117;60;47;97;62])
+    = Ok (N 1 1 [97] [([107], [118]); ([108], [119])] [T [116]; T [117]]) /\
+  parse [60;97;32;108;61;34;119;34;62;117;60;47;97;62] = Ok (N 1 1 [97] [([108], [119])] [T [117]]).
+Proof. exact parse_without_clear_keeps_target_content. Qed.
+Print Assumptions xml_parse_without_clear_keeps_target_content.
+
+(* one Parser object: LF LF <a  fails on line 3; then x fails on line 1 of its own text; then <b/> into a target that holds content *)
+Example ex_parse_twice :
+  run_parses (new_parser 77) [(Nul, [10;10;60;97]); (Nul, [120]); (N 0 0 [122] [([107], [118])] [T [116]], [60;98;47;62])]
+  = [Syn 3 3 EEof; Syn 1 1 EExpLt; Ok (N 1 1 [98] [] [])].
 Proof. vm_compute. reflexivity. Qed.
 
 (* ---- comments and processing instructions ------------------------------------------------- *)
